@@ -1,3 +1,5 @@
+import FM.Generated.Patterns
+import FM.Model.PatternBaseline
 import FM.Lemmas.Ellipses
 /-
   C09 — Ellipsis conversion touches only three-dot runs in prose.
@@ -88,5 +90,10 @@ example : ellipses asciiWord "wait...and then... done....".toList
     = "wait … and then … done ….".toList := by decide
 example : ellipses asciiWord "x...(y) {% t a...b %} \"...\"".toList
     = "x...(y) {% t a...b %} \"…\"".toList := by decide
+
+
+/-- PATTERNS_AS_MODELLED: the regular expressions of the source files this property's models were written against
+(regenerated from /repo's working tree on every run by harness/translate_patterns.py) are the recorded ones. -/
+theorem PATTERNS_AS_MODELLED : FM.Gen.patterns_C09 = FM.Baseline.patterns_C09 := by decide
 
 end FM.C09
